@@ -1,5 +1,278 @@
-"""Kani units: overlay on a scratch copy of /repo (filled in below)."""
+"""Kani units: add-only overlay of harness modules on a scratch copy of /repo.
+
+The scratch copy is the working tree of /repo (src/, Cargo.toml, Cargo.lock).  For
+each unit one line is appended to the module file whose private items the
+harness needs:
+
+    #[cfg(kani)] #[path = "/verif/kani/<file>.rs"] mod kani_<unit>;
+
+Nothing else is changed; the crate is compiled by `cargo kani`, so the code under
+proof is the code of the working tree.
+"""
+import json
+import os
+import re
+import shutil
+import subprocess
+import time
+
+import config
 
 
-def run_units(units, repo, verif, work, tier):
-    return []
+class KResult:
+    def __init__(self, name):
+        self.name = name
+        self.engine = 'kani'
+        self.status = 'ok'
+        self.reason = ''
+        self.failed = []
+        self.obligations = []
+        self.discharged = 0
+        self.functions = []
+        self.rewrites = []
+        self.dropped = []
+        self.trusted = []
+        self.times = {}
+        self.cmd = ''
+        self.wall = 0.0
+        self.canary = None
+        self.bounded = False
+        self.bound = None
+        self.lost_hints = []
+
+
+def make_scratch(repo, work):
+    dst = os.path.join(work, 'kani-repo')
+    os.makedirs(dst)
+    for n in ('Cargo.toml', 'Cargo.lock'):
+        shutil.copy(os.path.join(repo, n), os.path.join(dst, n))
+    shutil.copytree(os.path.join(repo, 'src'), os.path.join(dst, 'src'))
+    os.makedirs(os.path.join(dst, '.cargo'))
+    open(os.path.join(dst, '.cargo', 'config.toml'), 'w').write('[net]\noffline = true\n')
+    return dst
+
+
+def harnesses_for(unit, tier):
+    spec = config.UNITS[unit]
+    hs = []
+    for h in spec['harnesses']:
+        if tier == 'quick' and h.get('tier', 'quick') != 'quick':
+            continue
+        hs.append(h)
+    return hs
+
+
+def run_units(units, repo, verif, work, tier, jobs=None):
+    t0 = time.time()
+    results = {}
+    scratch = make_scratch(repo, work)
+    wanted = []   # (unit, harness spec)
+    for u in units:
+        spec = config.UNITS[u]
+        r = KResult(u)
+        results[u] = r
+        modfile = os.path.join(scratch, spec['module_file'])
+        if not os.path.exists(modfile):
+            r.status = 'undecided'
+            r.reason = 'lost anchor: %s is gone' % spec['module_file']
+            continue
+        hfile = os.path.join(verif, 'kani', spec['file'])
+        modname = 'kani_' + re.sub(r'[^a-z0-9]', '_', u.lower())
+        with open(modfile, 'a') as fh:
+            fh.write('\n#[cfg(kani)]\n#[path = "%s"]\nmod %s;\n' % (hfile, modname))
+        r.rewrites.append({'rule': 'overlay', 'file': spec['module_file'], 'line': 0, 'what': 'appended #[cfg(kani)] mod %s (harness file kani/%s)' % (modname, spec['file'])})
+        for f in spec.get('functions', []):
+            r.functions.append((f, spec['module_file'], spec.get('fn_status', 'proved (complete harness)')))
+        for a in spec.get('assumes', []):
+            r.trusted.append(a)
+        hs = harnesses_for(u, tier)
+        for h in hs:
+            wanted.append((u, h))
+    live = [(u, h) for (u, h) in wanted if results[u].status == 'ok']
+    if not live:
+        return list(results.values())
+    jobs = jobs or int(os.environ.get('VERIF_KANI_JOBS', '8'))
+    cmd = ['cargo', 'kani', '-Z', 'function-contracts', '-Z', 'stubbing', '--output-format', 'terse', '-j', str(jobs)]
+    for u, h in live:
+        cmd += ['--harness', h['name']]
+    env = dict(os.environ)
+    env['CARGO_NET_OFFLINE'] = 'true'
+    env['CARGO_TARGET_DIR'] = os.path.join(work, 'kani-target')
+    timeout = max(h.get('timeout', 300) for _, h in live) + 240
+    timeout = int(os.environ.get('VERIF_KANI_TIMEOUT', timeout))
+    p = subprocess.Popen(cmd, cwd=scratch, env=env, stdout=subprocess.PIPE, stderr=subprocess.STDOUT, text=True, start_new_session=True)
+    timed_out = False
+    try:
+        out, _ = p.communicate(timeout=timeout)
+    except subprocess.TimeoutExpired:
+        timed_out = True
+        kill_tree(p)
+        out, _ = p.communicate()
+    open(os.path.join(work, 'kani.log'), 'w').write(out)
+    parsed = parse_kani(out)
+    compile_error = None
+    if not parsed and not timed_out:
+        m = re.search(r'(error(\[E\d+\])?: .*)', out)
+        compile_error = (m.group(1) if m else out[-600:])
+    for u in units:
+        r = results[u]
+        if r.status != 'ok':
+            continue
+        r.cmd = ' '.join(cmd[:9]) + ' ' + ' '.join('--harness ' + h['name'] for uu, h in live if uu == u)
+        kinds = set()
+        for uu, h in live:
+            if uu != u:
+                continue
+            kinds.add(h.get('kind', 'complete'))
+            pr = find_harness(parsed, h['name'])
+            if pr is None:
+                r.status = 'undecided'
+                if compile_error:
+                    r.reason = 'kani build error (unsupported construct / compile error): ' + compile_error[:300]
+                elif timed_out:
+                    r.reason = 'harness %s did not finish in %d s' % (h['name'], timeout)
+                else:
+                    r.reason = 'no result for harness %s' % h['name']
+                continue
+            ob_base = '%s/%s' % (u, h['name'])
+            n = pr['total']
+            r.times[h['name']] = {'ms': round(pr['time'] * 1000), 'rlimit': 0, 'success': pr['ok']}
+            is_bounded = h.get('kind', 'complete') == 'bounded'
+            if pr['ok']:
+                # vacuity: every cover property of the harness must be satisfied
+                if pr['covers_total'] and pr['covers_sat'] != pr['covers_total']:
+                    r.status = 'undecided'
+                    r.reason = 'vacuity: %d of %d cover properties of %s satisfied' % (pr['covers_sat'], pr['covers_total'], h['name'])
+                    continue
+                if not is_bounded:
+                    r.obligations.append('%s#kani(%d checks)' % (ob_base, n))
+                    r.discharged += 1
+                else:
+                    r.bounded_ok = getattr(r, 'bounded_ok', 0) + 1
+            else:
+                undec = [f for f in pr['failed'] if re.search(r'unwinding assertion|unsupported|not supported|unreachable code reached.*kani', f['desc'])]
+                real = [f for f in pr['failed'] if f not in undec]
+                if not is_bounded:
+                    r.obligations.append('%s#kani(%d checks)' % (ob_base, n))
+                if real:
+                    for f in real:
+                        r.failed.append({
+                            'obligation': '%s#kani' % ob_base,
+                            'detail': '%s (%s)' % (f['desc'], f['loc']),
+                            'message': 'Kani check FAILED: ' + f['desc'],
+                            'kind': 'kani',
+                            'rendered': pr['raw'][-3000:],
+                            'src': {'kind': 'src', 'file': f['file'], 'line': f['line'], 'fn': f['fn'], 'text': ''},
+                            'harness': h['name'],
+                            'bounded': is_bounded,
+                        })
+                    r.status = 'violation'
+                elif undec:
+                    if r.status == 'ok':
+                        r.status = 'undecided'
+                        r.reason = 'harness %s: %s' % (h['name'], undec[0]['desc'])
+                else:
+                    if r.status == 'ok':
+                        r.status = 'undecided'
+                        r.reason = 'harness %s failed without a failed check' % h['name']
+        if kinds == {'bounded'}:
+            r.bounded = True
+        r.bound = '; '.join(sorted(set(h.get('bound', '') for uu, h in live if uu == u and h.get('bound'))))
+        r.wall = time.time() - t0
+    # concrete playback for failed harnesses (one at a time)
+    for u in units:
+        r = results[u]
+        done = set()
+        for f in r.failed:
+            hn = f.get('harness')
+            if not hn or hn in done:
+                continue
+            done.add(hn)
+            pb = playback(scratch, env, hn)
+            for g in r.failed:
+                if g.get('harness') == hn:
+                    g['playback'] = pb
+    return list(results.values())
+
+
+def playback(scratch, env, harness):
+    cmd = ['cargo', 'kani', '-Z', 'function-contracts', '-Z', 'stubbing', '-Z', 'concrete-playback', '--concrete-playback=print', '--harness', harness]
+    try:
+        p = subprocess.run(cmd, cwd=scratch, env=env, stdout=subprocess.PIPE, stderr=subprocess.STDOUT, text=True, timeout=600)
+    except subprocess.TimeoutExpired:
+        return None
+    tests = re.findall(r'```\n(.*?)```', p.stdout, re.S)
+    vals = []
+    for t in tests:
+        if 'Check for `cover`' in t:
+            continue
+        m = re.search(r'vec!\[(.*)\];', t, re.S)
+        if m:
+            nums = re.findall(r'//\s*(.*?)\n\s*vec!\[([^\]]*)\]', m.group(1))
+            vals.append({'check': (re.search(r'Check for `\w+`: "(.*?)"', t) or [None, ''])[1], 'values': [{'as_text': a.strip(), 'bytes': [int(x) for x in b.split(',') if x.strip()]} for a, b in nums]})
+    return vals or None
+
+
+def find_harness(parsed, name):
+    for k, v in parsed.items():
+        if k == name or k.endswith('::' + name):
+            return v
+    return None
+
+
+def parse_kani(out):
+    """Parse `--output-format terse` output, possibly interleaved by `-j` (lines are
+    tagged `Thread N:`; a result block of thread N belongs to the harness that
+    thread announced last)."""
+    res = {}
+    cur = {}          # thread -> harness name
+    blocks = {}       # harness -> list of lines
+    active = None     # harness whose block we are reading
+    for line in out.split('\n'):
+        m = re.match(r'^(?:Thread (\d+): )?Checking harness (.+?)\.\.\.\s*$', line)
+        if m:
+            th = m.group(1) or '0'
+            cur[th] = m.group(2).strip()
+            blocks.setdefault(cur[th], [])
+            if m.group(1) is None:
+                active = cur[th]
+            continue
+        m = re.match(r'^Thread (\d+):\s*$', line)
+        if m:
+            active = cur.get(m.group(1))
+            continue
+        if line.startswith('Manual Harness Summary') or line.startswith('Verification failed for') or line.startswith('Complete - '):
+            active = None
+            continue
+        if active is not None:
+            blocks[active].append(line)
+            if line.startswith('Verification Time:'):
+                active = None if len(cur) > 1 or True else active
+    for name, lines in blocks.items():
+        body = '\n'.join(lines)
+        if 'VERIFICATION:-' not in body:
+            continue
+        ok = 'VERIFICATION:- SUCCESSFUL' in body
+        m = re.search(r'\*\* (\d+) of (\d+) failed', body)
+        total = int(m.group(2)) if m else 0
+        nfail = int(m.group(1)) if m else 0
+        mc = re.search(r'\*\* (\d+) of (\d+) cover properties satisfied', body)
+        tm = re.search(r'Verification Time: ([\d.]+)s', body)
+        failed = []
+        for fm in re.finditer(r'Failed Checks: (.*?)\n\s*File: "([^"]*)", line (\d+), in ([^\n]*)', body):
+            failed.append({'desc': fm.group(1).strip(), 'file': fm.group(2), 'line': int(fm.group(3)), 'fn': fm.group(4).strip(), 'loc': '%s:%s' % (fm.group(2), fm.group(3))})
+        res[name] = {'ok': ok and nfail == 0, 'total': total, 'nfail': nfail,
+                     'covers_sat': int(mc.group(1)) if mc else 0, 'covers_total': int(mc.group(2)) if mc else 0,
+                     'time': float(tm.group(1)) if tm else 0.0, 'failed': failed, 'raw': body}
+    return res
+
+
+def kill_tree(p):
+    import signal
+    try:
+        os.killpg(os.getpgid(p.pid), signal.SIGKILL)
+    except Exception:
+        try:
+            p.kill()
+        except Exception:
+            pass
